@@ -681,6 +681,12 @@ pub fn empty() -> Empty {
     Empty {}
 }
 
+/// A cw20 "receive" message as raw JSON (whatever cw20 version the callee was built with): used to forge receipts, i.e. to
+/// send the Receive message directly instead of through the token contract.
+pub fn forged_receive<M: Serialize>(sender: &Addr, amount: u128, hook: &M) -> Value {
+    json!({"receive": {"sender": sender.to_string(), "amount": amount.to_string(), "msg": cosmwasm_std::to_json_binary(hook).unwrap()}})
+}
+
 pub fn jerr(e: &str) -> Value {
     // keep error texts short and free of characters that upset readers of the trace
     let t: Vec<char> = e.chars().filter(|c| c.is_ascii() && !c.is_ascii_control() && *c != '"' && *c != '\\').collect();
